@@ -499,7 +499,11 @@ impl Gen {
             }
         }
         for i in 0..g.w.actors.len() {
-            let at = g.rng.below(3000);
+            let at = match g.w.actors[i].role {
+                Role::Lp => g.rng.below(800),
+                Role::RewardAuth => g.rng.below(400),
+                _ => 1500 + g.rng.below(4000),
+            };
             g.push(at, Ev::Wake(i));
         }
         (g, l)
@@ -800,7 +804,8 @@ pub fn pick_range(rng: &mut Rng, l: &Ledger, whirlpool: &Pubkey, pool: &decode::
         (1 + rng.below(1 << b)) as i32
     };
     let n = 88 * spi;
-    let (mut lo, mut hi) = match rng.below(12) {
+    let style = if decode::positions_of_pool(l, whirlpool).len() < 2 && rng.chance(2, 3) { 0 } else { rng.below(12) };
+    let (mut lo, mut hi) = match style {
         0 | 1 | 2 => (ca - w(rng) * spi, ca + w(rng) * spi),
         3 => (ca, ca + w(rng) * spi),                 // lower bound exactly at the current tick
         4 => (ca - w(rng) * spi, ca),                 // upper bound exactly at the current tick (out of range above)
@@ -1184,6 +1189,9 @@ fn plan_trader(w: &World, knobs: &Knobs, actor: &mut Actor, l: &Ledger) -> Vec<(
         let Some(pool) = l.data(&pi.keys.whirlpool).and_then(decode::pool) else {
             continue;
         };
+        if pool.liquidity == 0 && rng.chance(2, 3) {
+            continue;
+        }
         let v2 = rng.chance(1, 2);
         // like a real client: simulate on the current view, adapt a few times, then send
         let mut chosen: Option<(SwapAccounts, SwapArgs)> = None;
